@@ -154,25 +154,26 @@ theorem required_emitted : ∀ (fs : Fields) (vs : Vals) (k : Nat), RTSFields fs
 
 /-! ### per-field steps -/
 
-/-- the round trip of one emitted field of type `t` (tag flag `en`) holding `x`, as the struct decoder performs it -/
-def FieldStep (p : Proto) (strict : Bool) (t : Ty) (en : Bool) (x : Val) : Prop :=
+/-- the round trip of one emitted field of type `t` (tag flag `en`) holding `x`, as the struct decoder performs it
+(`d` = nesting depth of the struct's fields = the struct's own depth + 1) -/
+def FieldStep (p : Proto) (strict : Bool) (d : Nat) (t : Ty) (en : Bool) (x : Val) : Prop :=
   (∀ k, en = true → baseOf t = .int k →
     ∃ i, (∀ rest, rI32 p (fieldBody p en t x ++ rest) = .ok (i, rest)) ∧
       wrapPtr t (.int (wrapTo k.bits i)) = norm t x) ∧
   (¬ (en = true ∧ ∃ k, baseOf t = .int k) →
     ∀ fuel rest, (fieldBody p en t x).length + depth t ≤ fuel →
-      decode p strict fuel t (fieldBody p en t x ++ rest) (zeroOf t) = .ok (norm t x, rest)) ∧
+      decode p strict d fuel t (fieldBody p en t x ++ rest) (zeroOf t) = .ok (norm t x, rest)) ∧
   (typeOf t = .bool → wrapPtr t (.bool (fieldIsTrue x)) = norm t x)
 
-def AllSteps (p : Proto) (strict : Bool) : Fields → Vals → Prop
+def AllSteps (p : Proto) (strict : Bool) (d : Nat) : Fields → Vals → Prop
   | .cons _ tag _ t rest, .cons x vs =>
     (match emitted tag t x with
      | none => True
-     | some (_, en) => FieldStep p strict t en x) ∧ AllSteps p strict rest vs
+     | some (_, en) => FieldStep p strict d t en x) ∧ AllSteps p strict d rest vs
   | _, _ => True
 
-theorem ValStep_mono (p : Proto) (strict : Bool) (d : FieldDesc) (body : Bytes) (B B' : Nat) (z w : Val)
-    (h : ValStep p strict d body B z w) (hB : B ≤ B') : ValStep p strict d body B' z w :=
+theorem ValStep_mono (p : Proto) (strict : Bool) (d : Nat) (fd : FieldDesc) (body : Bytes) (B B' : Nat) (z w : Val)
+    (h : ValStep p strict d fd body B z w) (hB : B ≤ B') : ValStep p strict d fd body B' z w :=
   ⟨h.1, fun hn fuel rest hf => h.2 hn fuel rest (by omega)⟩
 
 theorem normFields_length : ∀ (fs : Fields) (vs : Vals), RTSFields fs vs = true →
@@ -186,13 +187,13 @@ theorem normFields_length : ∀ (fs : Fields) (vs : Vals), RTSFields fs vs = tru
     simp only [normFields, zeroFields, Vals.length, normFields_length rest vs h.1.1]
 
 /-- every emitted record is declared: descriptor, position (relative to the offset `k`), value step -/
-theorem recs_declared (p : Proto) (strict : Bool) : ∀ (fs : Fields) (vs : Vals) (k : Nat),
-    RTSFields fs vs = true → AllSteps p strict fs vs →
+theorem recs_declared (p : Proto) (strict : Bool) (d : Nat) : ∀ (fs : Fields) (vs : Vals) (k : Nat),
+    RTSFields fs vs = true → AllSteps p strict d fs vs →
     ∀ f ∈ fieldRecs p fs vs, isReal f.t = true ∧ f.t ≠ .true_ ∧
-      ∃ d ∈ fieldDescs.go fs k, ∃ n, d.pos = k + n ∧ d.id = f.id ∧ typeOf d.ty = f.t ∧
+      ∃ fd ∈ fieldDescs.go fs k, ∃ n, fd.pos = k + n ∧ fd.id = f.id ∧ typeOf fd.ty = f.t ∧
         n < (normFields fs vs).length ∧
-        (f.t = .bool → wrapPtr d.ty (.bool f.isTrue) = Vals.get (normFields fs vs) n) ∧
-        ValStep p strict d f.body (depthFields fs) (Vals.get (zeroFields fs) n) (Vals.get (normFields fs vs) n)
+        (f.t = .bool → wrapPtr fd.ty (.bool f.isTrue) = Vals.get (normFields fs vs) n) ∧
+        ValStep p strict d fd f.body (depthFields fs) (Vals.get (zeroFields fs) n) (Vals.get (normFields fs vs) n)
   | .nil, _, _, _, _ => by simp [fieldRecs]
   | .cons _ _ _ _ _, .nil, _, _, _ => by simp [fieldRecs]
   | .cons nm tag e t rest, .cons x vs, k, h, hs => by
@@ -200,17 +201,17 @@ theorem recs_declared (p : Proto) (strict : Bool) : ∀ (fs : Fields) (vs : Vals
     simp only [Bool.and_eq_true] at h
     obtain ⟨⟨hrest, _⟩, hfield⟩ := h
     obtain ⟨hstep, hsrest⟩ := hs
-    have ih := recs_declared p strict rest vs (k + 1) hrest hsrest
+    have ih := recs_declared p strict d rest vs (k + 1) hrest hsrest
     -- a record of the tail
     have tail : ∀ f ∈ fieldRecs p rest vs, isReal f.t = true ∧ f.t ≠ .true_ ∧
-      ∃ d ∈ fieldDescs.go (.cons nm tag e t rest) k, ∃ n, d.pos = k + n ∧ d.id = f.id ∧ typeOf d.ty = f.t ∧
+      ∃ fd ∈ fieldDescs.go (.cons nm tag e t rest) k, ∃ n, fd.pos = k + n ∧ fd.id = f.id ∧ typeOf fd.ty = f.t ∧
         n < (normFields (.cons nm tag e t rest) (.cons x vs)).length ∧
-        (f.t = .bool → wrapPtr d.ty (.bool f.isTrue) = Vals.get (normFields (.cons nm tag e t rest) (.cons x vs)) n) ∧
-        ValStep p strict d f.body (depthFields (.cons nm tag e t rest))
+        (f.t = .bool → wrapPtr fd.ty (.bool f.isTrue) = Vals.get (normFields (.cons nm tag e t rest) (.cons x vs)) n) ∧
+        ValStep p strict d fd f.body (depthFields (.cons nm tag e t rest))
           (Vals.get (zeroFields (.cons nm tag e t rest)) n) (Vals.get (normFields (.cons nm tag e t rest) (.cons x vs)) n) := by
       intro f hf
-      obtain ⟨a, b, d, hd, n, h1, h2, h3, h4, h5, h6⟩ := ih f hf
-      refine ⟨a, b, d, ?_, n + 1, by omega, h2, h3, ?_, ?_, ?_⟩
+      obtain ⟨a, b, fd, hd, n, h1, h2, h3, h4, h5, h6⟩ := ih f hf
+      refine ⟨a, b, fd, ?_, n + 1, by omega, h2, h3, ?_, ?_, ?_⟩
       · rw [go_cons]
         cases parseTag tag with
         | none => exact hd
@@ -219,7 +220,7 @@ theorem recs_declared (p : Proto) (strict : Bool) : ∀ (fs : Fields) (vs : Vals
       · rw [normFields_cons]; simpa only [Vals.get] using h5
       · rw [normFields_cons, depthFields_cons]
         simp only [zeroFields, Vals.get]
-        exact ValStep_mono _ _ _ _ _ _ _ _ h6 (Nat.le_max_right ..)
+        exact ValStep_mono _ _ _ _ _ _ _ _ _ h6 (Nat.le_max_right ..)
     intro f hf
     rw [fieldRecs_cons] at hf
     cases hem : emitted tag t x with
@@ -280,45 +281,45 @@ theorem pos_cases (p : Proto) : ∀ (fs : Fields) (vs : Vals) (k n : Nat), RTSFi
 
 /-- **struct level.** Started on the zero value, the struct decoder consumes the emitted records (sorted by id) and the
 stop field, yields `normFields fs vs`, and has seen every required id. -/
-theorem decodeStruct_fields (p : Proto) (strict : Bool) (fs : Fields) (vs : Vals) (hids : idsOK fs = true)
-    (h : RTSFields fs vs = true) (hs : AllSteps p strict fs vs) (fuel : Nat) (rest : Bytes)
+theorem decodeStruct_fields (p : Proto) (strict : Bool) (d : Nat) (fs : Fields) (vs : Vals) (hids : idsOK fs = true)
+    (h : RTSFields fs vs = true) (hs : AllSteps p strict d fs vs) (fuel : Nat) (rest : Bytes)
     (hf : (emitFields p (sortRecs (fieldRecs p fs vs)) 0).length + 1 + depthFields fs ≤ fuel) :
-    ∃ seen, decodeStruct p strict fuel (fieldDescs fs)
+    ∃ seen, decodeStruct p strict d fuel (fieldDescs fs)
         (emitFields p (sortRecs (fieldRecs p fs vs)) 0 ++ (wStopField p ++ rest)) (zeroFields fs) 0 0 []
           = .ok ((normFields fs vs, seen), rest) ∧
-      (fieldDescs fs).any (fun d => d.required && !seen.contains d.id) = false := by
+      (fieldDescs fs).any (fun fd => fd.required && !seen.contains fd.id) = false := by
   have hdescs : fieldDescs fs = fieldDescs.go fs 0 := rfl
   unfold idsOK at hids
   simp only [Bool.and_eq_true, decide_eq_true_eq, List.all_eq_true] at hids
   obtain ⟨hrange, hnd⟩ := hids
-  have hfind : ∀ d ∈ fieldDescs fs, findById (fieldDescs fs) d.id = some d := findById_of_mem _ hnd
+  have hfind : ∀ fd ∈ fieldDescs fs, findById (fieldDescs fs) fd.id = some fd := findById_of_mem _ hnd
   have hposinj := eq_of_pos_eq _ (hdescs ▸ (go_pos fs 0).1)
-  have hdecl := recs_declared p strict fs vs 0 h hs
+  have hdecl := recs_declared p strict d fs vs 0 h hs
   have hmem := fun g => mem_sortRecs g (fieldRecs p fs vs)
   -- every sorted record is declared
   have hdec : ∀ f ∈ sortRecs (fieldRecs p fs vs),
-      DecRec p strict (fieldDescs fs) (zeroFields fs) (normFields fs vs) (depthFields fs) f := by
+      DecRec p strict d (fieldDescs fs) (zeroFields fs) (normFields fs vs) (depthFields fs) f := by
     intro f hfm
-    obtain ⟨a, b, d, hd, n, h1, h2, h3, h4, h5, h6⟩ := hdecl f ((hmem f).mp hfm)
+    obtain ⟨a, b, fd, hd, n, h1, h2, h3, h4, h5, h6⟩ := hdecl f ((hmem f).mp hfm)
     rw [← hdescs] at hd
-    have hr := hrange d hd
-    have hpn : d.pos = n := by omega
+    have hr := hrange fd hd
+    have hpn : fd.pos = n := by omega
     rw [h2] at hr
-    refine ⟨hr.1, hr.2, a, b, d, ?_, h3, hpn ▸ h4, ?_, ?_⟩
-    · rw [← h2]; exact hfind d hd
+    refine ⟨hr.1, hr.2, a, b, fd, ?_, h3, hpn ▸ h4, ?_, ?_⟩
+    · rw [← h2]; exact hfind fd hd
     · rw [hpn]; exact h5
     · rw [hpn]; exact h6
   have hnodup : ((fieldRecs p fs vs).map (·.id)).Nodup := by
     rw [emittedIds_eq]
     exact (emittedIds_sublist fs vs 0).nodup (hdescs ▸ hnd)
   have hsorted := pairwise_sortRecs _ hnodup
-  have hposOf : ∀ f ∈ sortRecs (fieldRecs p fs vs), ∃ d ∈ fieldDescs fs, d.id = f.id ∧
-      posOf (fieldDescs fs) f.id = d.pos := by
+  have hposOf : ∀ f ∈ sortRecs (fieldRecs p fs vs), ∃ fd ∈ fieldDescs fs, fd.id = f.id ∧
+      posOf (fieldDescs fs) f.id = fd.pos := by
     intro f hfm
-    obtain ⟨_, _, d, hd, n, _, h2, _⟩ := hdecl f ((hmem f).mp hfm)
+    obtain ⟨_, _, fd, hd, n, _, h2, _⟩ := hdecl f ((hmem f).mp hfm)
     rw [← hdescs] at hd
-    refine ⟨d, hd, h2, ?_⟩
-    rw [← h2]; simp [posOf, hfind d hd]
+    refine ⟨fd, hd, h2, ?_⟩
+    rw [← h2]; simp [posOf, hfind fd hd]
   have hpp : (sortRecs (fieldRecs p fs vs)).Pairwise
       (fun a b => posOf (fieldDescs fs) a.id ≠ posOf (fieldDescs fs) b.id) := by
     apply List.Pairwise.imp_of_mem _ hsorted
@@ -328,24 +329,24 @@ theorem decodeStruct_fields (p : Proto) (strict : Bool) (fs : Fields) (vs : Vals
     have : da = db := hposinj da hda db hdb (by omega)
     rw [this] at hia
     omega
-  have hloop := decodeStruct_loop p strict (fieldDescs fs) (zeroFields fs) (normFields fs vs) (depthFields fs)
+  have hloop := decodeStruct_loop p strict d (fieldDescs fs) (zeroFields fs) (normFields fs vs) (depthFields fs)
     (sortRecs (fieldRecs p fs vs)) 0 0 fuel (zeroFields fs) [] rest (by omega)
     (fun f hfm => by have := (hdec f hfm).1; omega) hsorted hdec hpp (normFields_length fs vs h).symm
     (fun _ _ => rfl)
     (fun n hn => by
-      rcases pos_cases p fs vs 0 n h with hz | ⟨f, hfm, d, hd, hid, hpos⟩
+      rcases pos_cases p fs vs 0 n h with hz | ⟨f, hfm, fd, hd, hid, hpos⟩
       · exact hz.symm
       · exfalso
         rw [← hdescs] at hd
         apply hn f ((hmem f).mpr hfm)
-        rw [← hid]; simp [posOf, hfind d hd]; omega)
+        rw [← hid]; simp [posOf, hfind fd hd]; omega)
     hf
   refine ⟨_, hloop, ?_⟩
   rw [List.any_eq_false]
-  intro d hd
+  intro fd hd
   simp only [Bool.and_eq_true, Bool.not_eq_true', not_and, Bool.not_eq_false]
   intro hreq
-  have := required_emitted fs vs 0 h d (hdescs ▸ hd) hreq
+  have := required_emitted fs vs 0 h fd (hdescs ▸ hd) hreq
   rw [← emittedIds_eq p, List.mem_map] at this
   obtain ⟨f, hfm, hfid⟩ := this
   simp only [List.append_nil, List.contains_eq_mem, List.mem_reverse, List.mem_map, decide_eq_true_eq]
